@@ -611,18 +611,6 @@ def shim(names):
         saved.append((cls, attr, cls.__dict__[attr]))
         setattr(cls, attr, val)
     try:
-        if "edit-inherits-focus-blind-text-cache" in names:
-            text_fn = urwid.Text.render.original_fn
-
-            def edit_render(self, size, focus=False):
-                self._shift_view_to_cursor = bool(focus)
-                canv = text_fn(self, size, focus)
-                if focus:
-                    canv = CompositeCanvas(canv)
-                    canv.cursor = self.get_cursor_coords(size)
-                return canv
-            patch(urwid.Edit, "render", edit_render)
-            setattr(urwid.Edit, "render", wm.cache_widget_render(urwid.Edit))
         if "store-checks-widget-not-canvas" in names or "pile-hidden-child" in names or "columns-hidden-child" in names:
             orig_store = CanvasCache.__dict__["store"].__func__
 
@@ -640,35 +628,6 @@ def shim(names):
                             return None
                 return orig_store(cls, wcls, canvas)
             patch(CanvasCache, "store", classmethod(store))
-        if "listbox-set-focus-valign-no-invalidate" in names:
-            orig_sfv = urwid.ListBox.__dict__["set_focus_valign"]
-
-            def set_focus_valign(self, valign):
-                orig_sfv(self, valign)
-                self._invalidate()
-            patch(urwid.ListBox, "set_focus_valign", set_focus_valign)
-        if "graphvscale-set-scale-no-invalidate" in names:
-            orig_ss = urwid.GraphVScale.__dict__["set_scale"]
-
-            def set_scale(self, labels, top):
-                orig_ss(self, labels, top)
-                self._invalidate()
-            patch(urwid.GraphVScale, "set_scale", set_scale)
-        if "bargraph-set-segment-attributes-no-invalidate" in names:
-            orig_sa = urwid.BarGraph.__dict__["set_segment_attributes"]
-
-            def set_segment_attributes(self, attlist, hatt=None, satt=None):
-                orig_sa(self, attlist, hatt, satt)
-                self._invalidate()
-            patch(urwid.BarGraph, "set_segment_attributes", set_segment_attributes)
-        if "gridflow-pack-stale-display-widget" in names:
-            orig_pack = urwid.GridFlow.__dict__["pack"]
-
-            def gf_pack(self, size=(), focus=False):
-                if size:
-                    self.get_display_widget(size)
-                return orig_pack(self, size, focus)
-            patch(urwid.GridFlow, "pack", gf_pack)
         if "pile-hidden-child" in names:
             pile_fn = urwid.Pile.render.original_fn
 
@@ -698,10 +657,10 @@ def shim(names):
             setattr(cls, attr, val)
 
 
-ROOT_CAUSES = [["edit-inherits-focus-blind-text-cache"], ["store-checks-widget-not-canvas"], ["pile-hidden-child"],
-               ["columns-hidden-child"], ["listbox-set-focus-valign-no-invalidate"],
-               ["graphvscale-set-scale-no-invalidate"], ["bargraph-set-segment-attributes-no-invalidate"],
-               ["gridflow-pack-stale-display-widget"]]
+# the recorded, unrepaired defects (cache-design changes).  Defects repaired in /repo (Edit/Text focus-blind cache entry,
+# ListBox.set_focus_valign, GraphVScale.set_scale, BarGraph.set_segment_attributes, GridFlow.pack) have no shim any more:
+# if one of them comes back it is reported as [root cause: unexplained], i.e. as a new violation.
+ROOT_CAUSES = [["store-checks-widget-not-canvas"], ["pile-hidden-child"], ["columns-hidden-child"]]
 
 
 def run_real(case):
@@ -811,7 +770,7 @@ class C06(core.Check):
                   "witness is replayed on the implementation and is a recorded finding).  Correspondence/oracle only: that the "
                   "model is the code (exact comparison of _widgets/_deps keys and rendered stamps after every step on real "
                   "AttrMap/Padding/Pile/Columns trees) and that the bundled widgets meet the premises (random histories through "
-                  "their public mutators, keypress/mouse_event and contents edits; 3 further recorded findings where they do not).")
+                  "their public mutators, keypress/mouse_event and contents edits; 2 further recorded findings where they do not: Pile and Columns do not depend on children they hide at zero size; 5 more defects found by this check were repaired in /repo and are kept as regression cases in corpus/C06).")
     level_note = ("Trusted: Coq kernel, ExtrOcamlBasic extraction + OCaml driver, the hand-written model of CanvasCache and the "
                   "wrappers (validated by the correspondence, not proved against Python), CPython reference counting as the "
                   "collector, the Python oracle.  The widgets' own layout caches (Text._cache_maxcol, ...) are covered by the "
